@@ -12,6 +12,8 @@ call the books are compared with what the calls so far entitle to:
   I2  at most max_size objects are listed
   I3  every object ever created is listed, or was closed exactly once; a closed object is not listed
   G1  get() hands out an object that is listed as checked out, is not closed and is not held by anyone
+  G3  after get() no object that had been idle for longer than idle_timeout is still listed as idle (checkout is where
+      expired connections are closed: the scan must reach all of them)
   G2  an idle object handed out passed the idle test against the scripted clock; a new object is created only when no
       idle object passed it and fewer than max_size are checked out; get() raises (RuntimeError) only when the pool is
       full, and nothing is lost when it does
@@ -36,6 +38,10 @@ class PoolDomain(ExactCollections, Domain):
 
     def mark_imprecise(self, state, node):
         return state.set("#imprecise", 1)
+
+    def is_global_key(self, k):
+        # the pool's own state, the objects' attributes and the scenario's counters outlive a helper frame
+        return isinstance(k, tuple) or (isinstance(k, str) and (k.startswith("self.") or k.startswith("#") or k.startswith("attr:")))
 
     def name_load(self, name, state, node=None):
         if state.has(name):
@@ -300,6 +306,11 @@ def pool_histories(prog, rule, tier, prefix="ObjectPool"):
                                         fail("get:creates-over-capacity", "%s: get() creates a new object with %d of %d checked out" % (where, len(before.used), max_size), f)
                                         bad = True
                                 held2 = held | {o}
+                        if idle_timeout and all(_stamp(c2, o_) is not None for o_ in after.free):
+                            stale = [o_ for o_ in after.free if clock - _stamp(c2, o_) > idle_timeout]
+                            if stale:
+                                fail("get:leaves-expired-idle", "%s: after get() the idle object(s) %s, idle for longer than idle_timeout at the time of the call, are still listed and open: the scan for a reusable object stopped before reaching them, and with steady traffic it always will (they are never closed)" % (where, names(stale)), f)
+                                bad = True
                     elif opname in ("release", "destroy"):
                         if x not in before.used:
                             if raised is not None or (after.used, after.free, after.closed) != (before.used, before.free, before.closed):
